@@ -50,6 +50,11 @@ CHECKS = {
          "From genesis the node produces up to 25 blocks in a row through Mempool::add_transaction_if_validates / add_golden_ticket / bundle_block with generated pool content (payers, fees, routing paths ending at the producer), golden-ticket availability, timestamp offsets (1 ms..20 s), genesis period 4..100 (several window wraps), heartbeat 100/5000, staking on/off and genesis treasury (payout multiplier, 5% cap). Producer and validator must agree on every produced block and end in identical tip/utxoset on two independent nodes.",
          "The producer is driven through Mempool::bundle_block exactly as ConsensusThread::produce_block does (golden ticket taken from the pool's ticket map); the timer-driven wrapper ConsensusThread::bundle_block is exercised in the net-world checks. Pool transactions of the producer's own key are not generated when staking is on (they would compete with the wallet's stake selection, a C14 matter).",
          "DESIGN.md §3 C07"),
+ "C08": ("exploration",
+         "property-based testing in three parts: algebraic laws of the work function over the full u64/timestamp domain; boundary-value generation around the work requirement with an independently recomputed work oracle; payout eligibility/bound invariants over accepted blocks of generated histories",
+         "(a) 1e5 (quick) random points of the floating-point work function, including powers of two and extreme timestamps, checked for monotone non-increase in elapsed time and for reaching zero after two heartbeats; (b) blocks built outside the producer's gate one millisecond before, exactly at and after the moment the independently computed routing work meets the requirement, with valid, path-less, mis-addressed, forged and gapped routing paths; (c) every fee transaction on the longest chain of generated forked histories pays only the ticket solver and keys on routing paths of the blocks being paid, never more than those blocks collected.",
+         "The requirement curve itself (needed as a function of burn fee and time) is taken from the implementation; only its laws are checked. Senders of path-less fee-paying transactions count as eligible (documented in get_winning_routing_node).",
+         "DESIGN.md §3 C08"),
 }
 NOT_YET = {}
 
